@@ -137,6 +137,9 @@ type Cfg struct {
 	// EnvLate (builder only) - the GetEnv modifiers are created before the environment variables are set and applied
 	// afterwards, when the options are declared: the variable is read when the option is declared
 	EnvLate bool `json:"envlate"`
+	// EnvStep (builder only) - the environment changes while the program is being declared: every variable bound to an
+	// option is set right before that option is declared and absent until then
+	EnvStep bool `json:"envstep"`
 	// UnsetLate (builder only; only for trees whose wrappers have no options and only wrappers below them) - the whole
 	// tree is declared first, then UnsetOptions is called on the wrappers, outermost first
 	UnsetLate bool      `json:"unsetlate"`
